@@ -160,6 +160,10 @@ pub trait World: Sync + Send + 'static {
     fn variant(&self, base: &Self::Scn, _sub: u64, _tier: Tier) -> Self::Scn {
         base.clone()
     }
+    /// How many variants `explore` enumerates for `base` (sub = 0 is the base itself).
+    fn variant_count(&self, _base: &Self::Scn, _tier: Tier) -> u64 {
+        1
+    }
     /// Execute one explicit scenario literally: returns the violation class/detail if any.
     fn check(&self, scn: &Self::Scn, cov: &mut Cov, prog: &Progress) -> Option<(String, String)>;
     /// Candidate simplifications, most aggressive first.
